@@ -1558,6 +1558,7 @@ class Unit(object):
         self.repo = repo
         self.chunks = []
         self.rule_log = []          # (rule, before, after, file, fn)
+        self.skipped_blocks = []
         self.fns = {}               # fn_id -> dict(file, path, line, props, trusted, ...)
         self.clauses = []           # dict(fn, section, label, props, text)
         self.items = []             # extracted non-fn items
@@ -2318,6 +2319,13 @@ def emit_block(unit, loc, dlines, tmpl_where):
     if not mm:
         raise Unsupported('%s: bad //@block locator' % tmpl_where)
     rel, path = parse_locator(mm.group(1))
+    nm_ = next((r_.strip().split()[1] for r_ in dlines if r_.strip().split()[:1] == ['name'] and len(r_.strip().split()) > 1), None)
+    if nm_ is not None and nm_ in (getattr(unit, 'skip_blocks', None) or ()):
+        # the driver has found that this block's text does not compile on this tree (a local it returns or renames is gone):
+        # it is left out so that the rest of the unit is still decided; the property it belongs to is answered `undecided`
+        pm_ = next((r_.strip()[5:].strip() for r_ in dlines if r_.strip().split()[:1] == ['props']), '')
+        unit.skipped_blocks.append({'block': nm_, 'props': [x for x in re.split(r'[,\s]+', pm_) if x]})
+        return
     a_txt, b_txt = mm.group(2), mm.group(4)
     end_exclusive = mm.group(3) == '<'   # `a` ..< `b`: up to, not including, the statement that starts with b
     src, mask = unit.src(rel)
